@@ -176,7 +176,12 @@ pub fn s_rtp_marshal(run: &mut Run, t: &str) -> (String, Fails) {
             }
         }
     }
-    (res_hex(r), f)
+    // the bridge fast path `marshal_into` reuses a caller buffer and must produce the same bytes
+    let mut buf = vec![0xEEu8; 7];
+    let q2 = q.clone();
+    let into = match catch(move || { q2.marshal_into(&mut buf); buf }) { Ok(b) => b, Err(p) => { f.push(("panic:marshal_into".into(), p)); vec![] } };
+    if let Ok(b) = &r { if *b != into { f.push(("codec:rtp:marshal_into-differs".into(), hex(&into))); } }
+    (format!("{} into:{}", res_hex(r), hex(&into)), f)
 }
 
 pub fn s_rtp_parse(run: &mut Run, hx: &str, from_ref: bool) -> (String, Fails) {
@@ -188,6 +193,16 @@ pub fn s_rtp_parse(run: &mut Run, hx: &str, from_ref: bool) -> (String, Fails) {
         Ok(Err(e)) => { if from_ref { f.push(("codec:rtp:parse-of-ref-bytes:rejected".into(), show_err(&e))); } show_err(&e) }
         Ok(Ok(p)) => {
             let m = p.marshal();
+            // `RtpHeader::parse` on a plain slice (the SRTP path) sees the same header and leaves the body unread
+            { let mut sl = &b[..];
+              match RtpHeader::parse(&mut sl) {
+                Ok((h, pad)) => { if h != p.header || pad != (b[0] & 0x20 != 0) || sl.len() != p.payload.len() + p.padding_len as usize {
+                    f.push(("codec:rtp:header-parse-differs".into(), format!("{:?} pad={pad} rest={}", h, sl.len()))); } }
+                Err(e) => f.push(("codec:rtp:header-parse-differs".into(), show_err(&e))),
+              } }
+            // canonical wire encoding (padding, if any, written as count bytes) is reproduced byte for byte
+            let canonical = b[0] & 0x20 == 0 || (p.padding_len != 0 && b[b.len() - p.padding_len as usize..].iter().all(|x| *x == p.padding_len));
+            if canonical { if let Ok(mb) = &m { if *mb != b { f.push(("codec:rtp:bytes-not-reproduced".into(), hex(mb))); } else { run.count("rtp_bytes_reproduced"); } } }
             match &m {
                 Err(e) => f.push(("codec:rtp:parsed-not-marshalable".into(), show_err(e))),
                 Ok(mb) => match RtpPacket::parse(mb) {
@@ -284,6 +299,7 @@ pub fn s_rtcp_marshal(run: &mut Run, toks: &[&str]) -> (String, Fails) {
     match &r {
         Err(e) => { if all_in { f.push((format!("codec:{}:marshal-rejects-in-range", kind(&ps[0])), show_err(e))); } }
         Ok(b) => {
+            if !b.is_empty() && !is_rtcp(b) { f.push(("codec:rtcp:is_rtcp-misses-own-output".into(), hex(&b[..b.len().min(8)]))); }
             let first_bad = ps.iter().zip(&classes).find(|(_, c)| c.is_some());
             let tag = |what: &str| match first_bad { Some((p, c)) => format!("codec:{}:{}:{}", kind(p), what, c.unwrap()), None => format!("codec:{}:{}", ps.first().map_or("compound", kind), what) };
             match parse_c(b) {
@@ -292,6 +308,16 @@ pub fn s_rtcp_marshal(run: &mut Run, toks: &[&str]) -> (String, Fails) {
                 Ok(Ok(back)) => {
                     let same_kinds = back.len() == ps.len() && back.iter().zip(&ps).all(|(a, b)| kind(a) == kind(b) && cardinality(a) == cardinality(b));
                     if !same_kinds { if framing_domain { f.push((tag("framing"), format!("sent {} packets, parsed {}: {}", ps.len(), back.len(), show_rtcps(&back)))); } }
+                    else if !all_in && classes.iter().all(|c| matches!(c, None | Some("lost-outside-24bit"))) {
+                        // RFC 3550 §6.4.1: the cumulative loss saturates at the 24-bit signed limits
+                        let sat = |b: &ReportBlock| ReportBlock { packets_lost: b.packets_lost.clamp(-(1 << 23), (1 << 23) - 1), ..b.clone() };
+                        let want: Vec<RtcpPacket> = ps.iter().map(|p| match norm(p) {
+                            RtcpPacket::SenderReport(mut s) => { s.report_blocks = s.report_blocks.iter().map(sat).collect(); RtcpPacket::SenderReport(s) }
+                            RtcpPacket::ReceiverReport(mut s) => { s.report_blocks = s.report_blocks.iter().map(sat).collect(); RtcpPacket::ReceiverReport(s) }
+                            o => o }).collect();
+                        for (w, b) in want.iter().zip(&back) { if matches!(w, RtcpPacket::SenderReport(_) | RtcpPacket::ReceiverReport(_)) && w != b {
+                            f.push(("codec:rr:loss-saturation".into(), show_rtcp(b))); } }
+                    }
                     else if all_in {
                         let want: Vec<RtcpPacket> = ps.iter().map(norm).collect();
                         if back != want {
@@ -436,6 +462,55 @@ pub fn s_rtx_unwrap(_run: &mut Run, t: &str, ssrc: &str, pt: &str) -> (String, F
     (match u { None => "none".into(), Some(u) => format!("some {}", show_pkt(&u)) }, f)
 }
 
+pub fn s_apt(_run: &mut Run, hx: &str) -> (String, Fails) {
+    let b = unhex(hx);
+    let t = String::from_utf8(b).expect("ascii");
+    let r = rustrtc::rtx::parse_apt(&t);
+    (match r { None => "none".into(), Some(v) => format!("some:{v}") }, vec![])
+}
+
+pub fn s_aptmap(_run: &mut Run, toks: &[&str]) -> (String, Fails) {
+    let attrs: Vec<(String, Option<String>)> = toks.iter().map(|t| match t.split_once('=') {
+        None => (String::from_utf8(unhex(t)).unwrap(), None),
+        Some((k, v)) => (String::from_utf8(unhex(k)).unwrap(), Some(String::from_utf8(unhex(v)).unwrap())) }).collect();
+    let m = rustrtc::rtx::extract_rtx_apt_map(&attrs);
+    let mut v: Vec<(u8, u8)> = m.iter().map(|(a, b)| (*a, *b)).collect(); v.sort();
+    let mut f = vec![];
+    // what `append_rtx_to_section` writes is read back: "<rtx> apt=<primary>"
+    for (k, val) in &attrs { if k == "fmtp" { if let Some(val) = val { if let Some((a, rest)) = val.split_once(' ') {
+        if let (Ok(pt), Some(p)) = (a.parse::<u8>(), rest.strip_prefix("apt=").and_then(|x| x.parse::<u8>().ok())) {
+            if !rest.contains(';') && !m.contains_key(&pt) { f.push(("codec:rtx:aptmap".into(), format!("{pt} apt={p} not in map"))); } } } } } }
+    (show_list(v.iter().map(|(a, b)| format!("{a}:{b}")).collect(), ";"), f)
+}
+
+pub fn s_is_rtcp(_run: &mut Run, hx: &str) -> (String, Fails) {
+    let b = unhex(hx);
+    ((is_rtcp(&b) as u8).to_string(), vec![])
+}
+
+pub fn s_osn(_run: &mut Run, hx: &str) -> (String, Fails) {
+    let b = unhex(hx);
+    let mut f = vec![];
+    let out = match rustrtc::rtx::decode_osn(&b) {
+        None => { if b.len() >= 2 { f.push(("codec:rtx:osn".into(), "none for ≥ 2 bytes".into())); } "none".to_string() }
+        Some(v) => { let e = rustrtc::rtx::encode_osn(v);
+            if b.len() < 2 || e != [b[0], b[1]] || rustrtc::rtx::decode_osn(&e) != Some(v) { f.push(("codec:rtx:osn".into(), format!("{v}"))); }
+            format!("some:{v}:{}", hex(&e)) }
+    };
+    (out, f)
+}
+
+pub fn s_rtx_alloc(_run: &mut Run, us: &str) -> (String, Fails) {
+    let used: Vec<u8> = list_of(us, ';').iter().map(|x| x.parse().unwrap()).collect();
+    let r = rustrtc::rtx::allocate_rtx_payload_type(&used);
+    let mut f = vec![];
+    match r {
+        Some(pt) => if !(96..=127).contains(&pt) || used.contains(&pt) || (96..pt).any(|q| !used.contains(&q)) { f.push(("codec:rtx:alloc".into(), format!("{pt}"))); }
+        None => if (96..=127u8).any(|q| !used.contains(&q)) { f.push(("codec:rtx:alloc".into(), "none although a dynamic PT is free".into())); }
+    }
+    (match r { None => "none".into(), Some(v) => format!("some:{v}") }, f)
+}
+
 /// run one case given as `<stream> <input…>` (also the replay entry point)
 pub fn exec(run: &mut Run, case: &str) -> (String, String, String, Fails) {
     let toks: Vec<&str> = case.split_whitespace().collect();
@@ -451,6 +526,11 @@ pub fn exec(run: &mut Run, case: &str) -> (String, String, String, Fails) {
         "utf8" => s_utf8(run, a[0]),
         "rtx_wrap" => s_rtx_wrap(run, a[0], a[1], a[2], a[3]),
         "rtx_unwrap" => s_rtx_unwrap(run, a[0], a[1], a[2]),
+        "apt" => s_apt(run, a[0]),
+        "aptmap" => s_aptmap(run, a),
+        "is_rtcp" => s_is_rtcp(run, a[0]),
+        "osn" => s_osn(run, a[0]),
+        "rtx_alloc" => s_rtx_alloc(run, a[0]),
         "nackbuf" => nackh::s_nackbuf(run, a),
         "gap" => nackh::s_gap(run, a),
         x => panic!("unknown stream {x}"),
@@ -473,10 +553,22 @@ fn emit(run: &mut Run, case: String, nontrivial_hint: bool) {
 pub fn run(args: &Args) {
     let mut run = Run::new("c15", &args.out);
     if let Some(case) = &args.replay {
-        let (stream, input, out, fails) = exec(&mut run, case);
-        println!("case: {stream} {input}");
-        println!("impl: {out}");
-        for (s, d) in fails { println!("ORACLE-FAIL {s} {d}"); }
+        const STREAMS: [&str; 19] = ["apt", "aptmap", "rtp_marshal", "rtp_parse", "rtp_parse_ref", "ext_get", "ext_set", "rtcp_marshal", "rtcp_parse",
+            "rtcp_parse_ref", "utf8", "rtx_wrap", "rtx_unwrap", "nackbuf", "gap", "is_rtcp", "osn", "rtx_alloc", "-"];
+        let first = case.split_whitespace().next().unwrap_or("-");
+        // replay files written for a model/implementation disagreement carry the input without its
+        // stream name: try every stream the input is well-formed for
+        let cands: Vec<String> = if STREAMS.contains(&first) { vec![case.clone()] } else { STREAMS[..18].iter().map(|s| format!("{s} {case}")).collect() };
+        for c in cands {
+            let c2 = c.clone();
+            let dir = format!("{}/replay", args.out);
+            let r = catch(move || { let mut run = Run::new("c15", &dir); exec(&mut run, &c2) });
+            if let Ok((stream, input, out, fails)) = r {
+                println!("case: {stream} {input}");
+                println!("impl: {out}");
+                for (s, d) in fails { println!("ORACLE-FAIL {s} {d}"); }
+            }
+        }
         return;
     }
     let mut rng = Rng::new(args.seed);
@@ -507,7 +599,14 @@ pub fn run(args: &Args) {
                 emit(&mut run, format!("rtp_parse {}", hex(&v)), true); run.count("rtp_foreign_padding"); }
         }
     }
-    for b0 in 0..=255u8 { emit(&mut run, format!("rtp_parse {}", hex(&[b0])), false); }
+    for b0 in 0..=255u8 { emit(&mut run, format!("rtp_parse {}", hex(&[b0])), false); emit(&mut run, format!("rtcp_parse {}", hex(&[b0])), false); }
+    emit(&mut run, "rtp_parse -".into(), false); emit(&mut run, "rtcp_parse -".into(), false);
+    if args.tier_thorough {
+        // every byte string of length 2, and every 4-byte RTCP header with an empty body
+        for a in 0..=255u8 { for b in 0..=255u8 { emit(&mut run, format!("rtp_parse {}", hex(&[a, b])), false); emit(&mut run, format!("rtcp_parse {}", hex(&[a, b])), false); } }
+        for a in 0..=255u8 { for b in 0..=255u8 { emit(&mut run, format!("rtcp_parse {}", hex(&[a, b, 0, 0])), true); } }
+        run.count_n("exhaustive_len2_and_empty_rtcp_headers", 3 * 65536);
+    }
     for _ in 0..300 * scale { let n = rng.range(12, 40) as usize; let mut v = rng.bytes(n); v[0] = 0x80 | (v[0] & 0x3F);
         emit(&mut run, format!("rtp_parse {}", hex(&v)), true); run.count("rtp_random_v2"); }
     // bytes serialised by the reference implementation (one-/two-byte extensions, padding)
@@ -547,7 +646,16 @@ pub fn run(args: &Args) {
             emit(&mut run, format!("ext_set {et} {id} {}", hex(&rng.bytes(n))), true);
         }
     }
-    emit(&mut run, "ext_set 48862:1f000000 1 aa".into(), true);
+    emit(&mut run, "ext_set 48862:1f000000 2 aa".into(), true);
+    if args.tier_thorough {
+        // every one-byte-header block of length ≤ 2 (all header bytes, all overrun shapes) × three ids
+        for a in 0..=255u8 { for b in 0..=255u8 { for id in [1u8, 2, 15] {
+            let e = format!("48862:{}", hex(&[a, b]));
+            emit(&mut run, format!("ext_get {e} {id}"), false);
+            emit(&mut run, format!("ext_set {e} {id} 7f"), false);
+        } } }
+        run.count_n("exhaustive_ext_blocks_len2", 65536 * 6);
+    }
 
     // ---- RTCP: logical compound packets → marshal (+ round trip, framing, reference), bytes → parse, mutations
     for i in 0..6000 * scale {
@@ -591,12 +699,21 @@ pub fn run(args: &Args) {
         emit(&mut run, format!("rtcp_parse {}", hex(&v)), true); run.count("rtcp_twcc_padded_wire");
     }
     // boundary NACK sets: every subset of a window straddling 65535 → 0
-    let w: u32 = if args.tier_thorough { 16 } else { 11 };
+    let w: u32 = if args.tier_thorough { 20 } else { 11 };
     for mask in 1u32..(1 << w) {
         let lost: Vec<String> = (0..w).filter(|k| mask >> k & 1 == 1).map(|k| (65_530u16.wrapping_add((k * 3 % w) as u16 + (k / 4) as u16 * 5)).to_string()).collect();
         emit(&mut run, format!("rtcp_marshal NACK,1,2,{}", lost.join(";")), true);
     }
     run.count_n("nack_window_subsets", (1u64 << w) - 1);
+    // NACK FCI as received: PIDs next to the wrap with arbitrary bitmasks (expansion must wrap 65535 → 0)
+    for _ in 0..300 * scale {
+        let n = rng.range(1, 4) as usize;
+        let mut v = vec![0x81u8, 205, 0, (2 + n) as u8, 0, 0, 0, 1, 0, 0, 0, 2];
+        for _ in 0..n { let pid = pk!(rng, [65_535u16, 65_534, 65_520, 65_519, 0, 32_767, rng.next() as u16]);
+            let blp = pk!(rng, [0u16, 1, 0x8000, 0xFFFF, 0x8001, rng.next() as u16]);
+            v.extend(pid.to_be_bytes()); v.extend(blp.to_be_bytes()); }
+        emit(&mut run, format!("rtcp_parse {}", hex(&v)), true); run.count("rtcp_nack_fci_near_wrap");
+    }
     // unknown packet types, XR, feedback formats, SDES without terminator, text that is not UTF-8
     for _ in 0..600 * scale {
         let pt = pk!(rng, [192u8, 199, 200, 201, 202, 203, 204, 205, 206, 207, 208, 0, 255]);
@@ -621,6 +738,40 @@ pub fn run(args: &Args) {
         if rng.chance(1, 3) { let n = rng.below(3) as usize; p.payload = Bytes::from(rng.bytes(n)); }
         emit(&mut run, format!("rtx_wrap {} {} {} {}", show_pkt(&p), gens::g32(&mut rng), rng.below(128), gens::g16(&mut rng)), true);
         emit(&mut run, format!("rtx_unwrap {} {} {}", show_pkt(&p), gens::g32(&mut rng), rng.below(128)), true);
+    }
+
+    // ---- small helpers: is_rtcp (every second byte), OSN codec, RTX payload-type allocation
+    for b1 in 0..=255u8 { emit(&mut run, format!("is_rtcp {}", hex(&[0x80, b1, 0, 0])), true); emit(&mut run, format!("is_rtcp {}", hex(&[0x80, b1])), false); }
+    for n in 0..2usize { emit(&mut run, format!("is_rtcp {}", hex(&vec![200u8; n])), false); }
+    for _ in 0..200 * scale { let n = rng.below(5) as usize; emit(&mut run, format!("osn {}", hex(&rng.bytes(n))), true); }
+    for _ in 0..300 * scale {
+        let mut used: Vec<u8> = match rng.below(4) { 0 => (96..=127).collect(), 1 => (96..(96 + rng.below(33) as u8)).collect(), _ => vec![] };
+        for _ in 0..rng.below(12) { used.push(pk!(rng, [95u8, 96, 97, 100, 126, 127, 128, 0, 255, rng.range(90, 130) as u8])); }
+        if rng.chance(1, 4) && !used.is_empty() { let k = rng.below(used.len() as u64) as usize; used.remove(k); }
+        emit(&mut run, format!("rtx_alloc {}", show_list(used.iter().map(|x| x.to_string()).collect(), ";")), true);
+    }
+
+    // ---- RTX apt association (ASCII fmtp values: what append_rtx_to_section writes, variants, malformed)
+    let piece = |rng: &mut Rng| -> String {
+        let n = pk!(rng, [96u32, 0, 255, 256, 97, 127, 1000, rng.below(300) as u32]);
+        let num = match rng.below(6) { 0 => format!("+{n}"), 1 => format!("0{n}"), 2 => format!("-{n}"), 3 => format!("{n}x"), _ => n.to_string() };
+        match rng.below(12) {
+            0 => format!("apt={num}"), 1 => format!(" apt={num} "), 2 => format!("APT={num}"), 3 => format!("apt= {num}"), 4 => format!("Apt={num}"),
+            5 => "rtx-time=3000".into(), 6 => "apt=".into(), 7 => format!("apt ={num}"), 8 => String::new(), 9 => format!("\tapt={num}\r"),
+            10 => format!("xapt={num}"), _ => format!("apt={num}") } };
+    for _ in 0..600 * scale {
+        let k = rng.range(1, 3); let parts: Vec<String> = (0..k).map(|_| piece(&mut rng)).collect();
+        emit(&mut run, format!("apt {}", hex(parts.join(";").as_bytes())), true);
+    }
+    for pt in 0..=255u32 { emit(&mut run, format!("apt {}", hex(format!("apt={pt}").as_bytes())), true); }
+    for _ in 0..300 * scale {
+        let n = rng.range(1, 5);
+        let toks: Vec<String> = (0..n).map(|_| {
+            let key = pk!(rng, ["fmtp", "fmtp", "fmtp", "rtpmap", "FMTP", "fmtp "]);
+            let val = match rng.below(8) { 0 => None, 1 => Some(format!("{}", rng.below(130))), 2 => Some(format!("{} VP8/90000", rng.below(130))),
+                3 => Some(format!("{}  {}", 96 + rng.below(4), piece(&mut rng))), _ => Some(format!("{} {}", pk!(rng, [96u64, 97, 97, 98, 300, rng.below(130)]), piece(&mut rng))) };
+            match val { None => hex(key.as_bytes()), Some(v) => format!("{}={}", hex(key.as_bytes()), hex(v.as_bytes())) } }).collect();
+        emit(&mut run, format!("aptmap {}", toks.join(" ")), true);
     }
 
     // ---- NACK send buffer and receiver gap detection
